@@ -259,6 +259,8 @@ def explore(tmp, state, direction, cfg, calls, mon: Monitor, run: Run, max_nodes
         seen.add(sig)
         for e in reversed(en):
             stack.append(ev + [e])
+    if stack:
+        run.count('schedule-exploration-truncated')
     return cases
 
 
@@ -421,7 +423,7 @@ def run(run: Run):
                             calls = [one_call(a), (b, 2, False) if b in ('fail', 'abort') else one_call(b)]
                             cases += explore(tmp, state, direction, cfg, calls, mon, run)
         if run.tier == 'thorough':
-            ops3 = ['abort', 'pause', 'queue', 'complete']
+            ops3 = ['abort', 'pause', 'queue']
             for state in L.STATES:
                 for direction in L.DIRS:
                     for a in ops3:
@@ -429,7 +431,7 @@ def run(run: Run):
                             for c in ops3:
                                 calls = [one_call(a), one_call(b), one_call(c)]
                                 cases += explore(tmp, state, direction, CFGS[3] if state in ('QUEUED', 'PAUSED') else RICH, calls, mon, run,
-                                                 max_nodes=600)
+                                                 max_nodes=400)
         # (d) natural runs
         for state in L.STATES:
             for direction in L.DIRS:
